@@ -28,6 +28,7 @@ def _doc(i):
     return " ".join(d.split())[:1500]
 
 AUTO = {
+ "C05": ("TLA+ spec PresentRR.tla on top of Present.tla (independent reader of master-file text: lexer, header, per-field-kind interpreters for 74 typed forms, RFC 3597 generic form, OnlyMasterSyntax) + WireRR.tla: TLC model checking of the interpreters and all 2x65536 type/class spellings + the C01 vector universe with nasty string values round-tripped String() -> NewRR -> PackRR + trace validation: TLC reads the text the real String() printed and must obtain the record's header and RDATA octets", "4/C05"),
  "C04": ("TLA+ spec Compress.tla (permissive PackAny: where a pointer may be emitted and what it must point at; decoder-side judge over both packings using Framing/Names/WireRR.Layout): TLC model checking of the refinement PackImpl => PackAny with the pointer limit lowered + TLC-generated messages (name families, every type with an RDATA name, 16384 crossings, hand-compressed RDATA) packed with and without compression by the real Pack and judged by TLC + trace validation of item streams of large random messages (independent Go walker cross-checked against TLC's walk)", "4/C04"),
  "C10": ("TLA+ spec Dnssec.tla (RFC 4034 canonical RR form and ordering, RRSIG signed data, pre-checks; signature primitive uninterpreted): TLC model checking of invariance/sensitivity + two trace-validation passes around the harness (real RRSIG.Sign events -> TLC emits the signed octets -> stdlib crypto verifies the real signature over the SPEC's octets and forges signatures over them -> real Verify on equivalent / altered / bit-flipped variants judged by PreChecks /\\ data equality)", "4/C10"),
  "C06": ("TLA+ specs Present.tla (RFC 1035 5.1 lexer) and Zone.tla (zone-file denotation machine: origin, owner/TTL/class inheritance, $ORIGIN/$TTL/$INCLUDE/$GENERATE with modifiers): TLC model checking over line sequences + every behaviour exported with the records it denotes, rendered by the harness in several equivalent spellings and parsed by ZoneParser under each configuration + the renderings re-lexed by the spec + trace validation of random zones", "4/C06"),
